@@ -18,7 +18,15 @@ RULE = (
     "non-trivial = at least one tie or at least one decoy above a target; thorough adds the exhaustive sweep "
     "over all weak orderings x labellings for n <= 6 (3 score values) and both directions; besides: refused inputs "
     "(length mismatch, non-0/1 labels, per entry point) against the validated model entry, and the helper "
-    "_fdr2qvalue called directly on arrays satisfying its contract against the model of its loop"
+    "_fdr2qvalue called directly on arrays satisfying its contract against the model of its loop; second pass: "
+    "tdc with the score dtype explicit (float32 cast of integer dtypes, sort key) against the model entry `tdcentry` "
+    "on every case, with value styles at the ends of each integer dtype's range, beyond 2^24 (there: model of the cast "
+    "only), zeros of both signs, single precision neighbours; long inputs (n up to 70000 quick / 300000 thorough, "
+    "more than 65535 targets or decoys) against a restatement of the formula that is itself compared with the "
+    "driver's qSpec on every short case; four threads calling tdc at once; sessions of many calls on one "
+    "LinearPsmDataset (columns of every dtype, both directions, default threshold); pandas Series in their own "
+    "dtype (nullable extension dtypes too) under non-default row indexes; results of earlier calls must stay "
+    "untouched by later ones; labels must be exactly +1/0/-1"
 )
 
 
@@ -46,9 +54,51 @@ def impl_tdc(scores, labels, desc, entry):
     raise AssertionError(entry)
 
 
-def impl_labels(scores, targets, thr, desc, entry):
+EXT_DTYPE = {"int8": "Int8", "uint8": "UInt8", "int16": "Int16", "uint16": "UInt16", "int32": "Int32", "uint32": "UInt32",
+             "int64": "Int64", "uint64": "UInt64", "float32": "Float32", "float64": "Float64", "bool": "boolean",
+             "float16": "Float32"}
+
+
+def series_index(kind, n, perm=None):
+    """row labels of a pandas Series / DataFrame as they come out of slicing, filtering, concatenating tables"""
+    if kind == "reversed":
+        return list(range(n - 1, -1, -1))
+    if kind == "dup":
+        return [i // 2 for i in range(n)]
+    if kind == "str":
+        return [f"r{(i * 7) % n}-{i}" for i in range(n)]
+    if kind == "offset":
+        return [i + 1000 for i in range(n)]
+    if kind == "shuffled":
+        return list(perm)
+    return list(range(n))
+
+
+def impl_labels(scores, targets, thr, desc, entry, c=None):
     import mokapot.dataset as D
 
+    c = c or {}
+    if entry == "_update_labels-default-fdr":       # documented default threshold: 0.01
+        assert thr == 0.01
+        return D._update_labels(scores, targets, desc=desc)
+    if entry == "_update_labels-series-native":
+        # a column as it sits in a table: its own dtype (integer feature columns, float32, pandas' nullable
+        # extension dtypes), any row index; the target Series with the same or with an unrelated index
+        n = len(scores)
+        idx = series_index(c.get("sindex", "default"), n, c.get("sperm"))
+        ss = pd.Series(np.asarray(scores), index=idx)
+        ts = pd.Series(np.asarray(targets), index=idx if c.get("tindex_same", True) else None)
+        if c.get("sext"):
+            ss = ss.astype(EXT_DTYPE[str(ss.dtype)])
+            ts = ts.astype(EXT_DTYPE[str(ts.dtype)])
+        return D._update_labels(ss, ts, thr, desc)
+    if entry == "LinearPsmDataset-default-fdr":
+        assert thr == 0.01
+        df = pd.DataFrame({"t": targets, "spec": np.arange(len(scores)),
+                           "pep": [f"P{i}" for i in range(len(scores))], "f": np.asarray(scores, dtype=float)})
+        ds = D.LinearPsmDataset(df, target_column="t", spectrum_columns="spec", peptide_column="pep",
+                                enforce_checks=False)
+        return ds._update_labels(np.asarray(scores, dtype=float), desc=desc)
     if entry == "_update_labels":
         return D._update_labels(scores, targets, thr, desc)
     if entry == "_update_labels-default-direction":
@@ -85,6 +135,9 @@ SCORE_DTYPES = ["float64", "float64", "float64", "float32", "float32", "int8", "
                 "int32", "uint32", "uint64"]
 UNSIGNED = ("uint8", "uint16", "uint32", "uint64")
 SIGNED = ("int8", "int16", "int32", "int64")
+INT_RANGE = {"int8": (-2 ** 7, 2 ** 7 - 1), "uint8": (0, 2 ** 8 - 1), "int16": (-2 ** 15, 2 ** 15 - 1),
+             "uint16": (0, 2 ** 16 - 1), "int32": (-2 ** 31, 2 ** 31 - 1), "uint32": (0, 2 ** 32 - 1),
+             "int64": (-2 ** 63, 2 ** 63 - 1), "uint64": (0, 2 ** 64 - 1)}
 LABEL_KINDS = ["bool", "int01", "float01"]
 # width of the 0/1 encodings ("all supported dtypes")
 LABEL_DTYPES = {"bool": ["bool"], "int01": ["int64", "int64", "int8", "uint8", "int32", "uint16"],
@@ -98,7 +151,41 @@ def gen_case(rng, nmax):
     pool = rng.randint(1, max(1, n))
     sdt = rng.choice(SCORE_DTYPES)
     vstyle = "small-integers"
-    if sdt in UNSIGNED:
+    negzero = []
+    style_roll = rng.random()
+    if sdt in INT_RANGE and style_roll < 0.22:
+        # the ends of the dtype's range next to small values: -128 / 255 / -2^31 / 2^63-1 / 2^64-1 ... (the float32
+        # cast of tdc rounds the widest ones but merges nothing here; negating them in the integer dtype would wrap)
+        lo, hi = INT_RANGE[sdt]
+        ends = [lo, hi, 0] + ([lo + 1, hi - 1] if hi < 2 ** 16 else [])
+        vals = rng.sample(ends, rng.randint(1, min(len(ends), max(1, pool)))) + \
+            [v for v in rng.sample(range(-100, 100), max(0, pool - 2)) if lo <= v <= hi]
+        vals = [Fraction(v) for v in dict.fromkeys(vals)]
+        vstyle = "dtype-extremes"
+    elif sdt in ("int32", "uint32", "int64", "uint64") and style_roll < 0.34:
+        # integers the float32 cast of tdc merges (beyond 2^24): outside "small-integer dtype"; the code is compared
+        # with the model of the cast only (see `embeds`)
+        base = rng.choice([2 ** 24, 2 ** 25, 2 ** 30, 3 * 2 ** 24])
+        if sdt in ("int64", "uint64") and rng.random() < 0.4:
+            base = rng.choice([2 ** 40, 2 ** 53, 2 ** 62])
+        sign = -1 if (sdt in SIGNED and rng.random() < 0.4) else 1
+        vals = [Fraction(sign * (base + rng.randint(-6, 6) * rng.choice([1, 1, 2, 64]))) for _ in range(max(2, pool))]
+        vals += [Fraction(rng.randint(0, 50))]
+        vstyle = "int-beyond-2^24"
+    elif sdt in ("float64", "float32") and style_roll < 0.1:
+        # zeros of both signs (equal as numbers: one tie group) among small values
+        vals = [Fraction(0)] * 2 + [Fraction(rng.randint(-3, 3), rng.choice([1, 2])) for _ in range(max(0, pool - 1))]
+        vstyle = "signed-zeros"
+    elif sdt == "float32" and style_roll < 0.45:
+        # single precision neighbours one ulp apart, any magnitude down to the subnormal range
+        mag = rng.choice([-41, -30, -6, -1, 0, 0, 4, 30])
+        vals = []
+        for _ in range(max(1, pool // 2 + 1)):
+            b = np.float32(rng.gauss(0, 1) * 10.0 ** mag)
+            vals += [b, np.nextafter(b, np.float32(np.inf)), np.nextafter(b, np.float32(-np.inf))][: rng.randint(1, 3)]
+        vals = [Fraction(float(v)) for v in vals[:max(pool, 1)]]
+        vstyle = "float32-ulp-neighbours"
+    elif sdt in UNSIGNED:
         vals = rng.sample(range(0, 200), pool)
         if sdt != "uint8" and rng.random() < 0.5:      # wide values, still exact in float32 (< 2^24)
             m = rng.choice([300] if sdt == "uint16" else [300, 60000])
@@ -129,6 +216,8 @@ def gen_case(rng, nmax):
         vals = [Fraction(rng.randint(-4000, 4000), rng.choice([1, 2, 4, 8, 16])) for _ in range(pool)]
         vstyle = "dyadic"
     scores = [rng.choice(vals) for _ in range(n)]
+    if vstyle == "signed-zeros" or (sdt in ("float64", "float32") and rng.random() < 0.05):
+        negzero = [i for i, x in enumerate(scores) if x == 0 and rng.random() < 0.5]
     pat = rng.choice(["mixed", "mixed", "mixed", "all_target", "all_decoy", "decoy_top", "target_top"])
     if pat == "mixed":
         p = rng.choice([0.2, 0.5, 0.8])
@@ -146,11 +235,13 @@ def gen_case(rng, nmax):
     desc = rng.random() < 0.5
     lk = rng.choice(LABEL_KINDS)
     return dict(scores=scores, labels=labels, desc=desc, sdtype=sdt, lkind=lk, ldtype=rng.choice(LABEL_DTYPES[lk]),
-                layout=rng.choice(LAYOUTS), pat=pat, vstyle=vstyle)
+                layout=rng.choice(LAYOUTS), pat=pat, vstyle=vstyle, negzero=negzero)
 
 
 BOUNDARY = [(10, 0, 0.1), (20, 1, 0.1), (30, 2, 0.1), (20, 0, 0.05), (40, 1, 0.05), (10, 2, 0.3), (20, 5, 0.3),
-            (100, 0, 0.01), (4, 0, 0.25), (2, 0, 0.5), (10, 0, 0.3), (20, 0, 0.1)]
+            (100, 0, 0.01), (4, 0, 0.25), (2, 0, 0.5), (10, 0, 0.3), (20, 0, 0.1),
+            # FDR strictly between two plausible thresholds (0.005 / 0.01 / 0.02 / 0.05): tells a changed default apart
+            (30, 0, 0.05), (60, 1, 0.05), (120, 0, 0.01), (64, 0, 0.02)]
 
 
 def gen_boundary_case(rng):
@@ -220,9 +311,23 @@ def label_array(lab, lkind, ldtype=None):
     return np.array([1.0 if b else 0.0 for b in lab], dtype=ldtype or np.float64)
 
 
-def to_arrays(case):
+def score_array(case):
+    """the score array in the case's dtype, every value exact (integers are built from Python ints: the ends of the
+    64-bit ranges are not doubles); `negzero` positions hold -0.0"""
+    if case["sdtype"] in INT_RANGE:
+        s = np.array([int(x) for x in case["scores"]], dtype=case["sdtype"])
+        assert all(int(v) == x for v, x in zip(s.tolist(), case["scores"])), "score not exact in dtype"
+        return s
     s = np.array([float(x) for x in case["scores"]], dtype=case["sdtype"])
     assert all(Fraction(float(v)) == Fraction(x) for v, x in zip(s.tolist(), case["scores"])), "score not exact in dtype"
+    for i in case.get("negzero", ()):
+        assert s[i] == 0
+        s[i] = -0.0
+    return s
+
+
+def to_arrays(case):
+    s = score_array(case)
     t = label_array(case["labels"], case["lkind"], case.get("ldtype"))
     lay = case.get("layout", "C")
     return with_layout(s, lay), with_layout(t, lay)
@@ -261,6 +366,69 @@ def wire_psms(case):
     return [[Fraction(x), bool(l)] for x, l in zip(case["scores"], case["labels"])]
 
 
+NOPS = 7     # driver lines per case in eval_cases
+
+_ROUNDED = {}
+
+
+def rounded_c(q: Fraction) -> float:
+    """`rounded` with a cache (long inputs have few distinct q-values)"""
+    r = _ROUNDED.get(q)
+    if r is None:
+        r = _ROUNDED[q] = rounded(q)
+    return r
+
+
+def py_spec(scores, labels, desc):
+    """the defining formula restated for long inputs (the driver's qSpec is cubic): every distinct score t is a
+    threshold, T(t) / D(t) = targets / decoys scoring at or better than t, FDR(t) = (D+1)/T read as 1 when T = 0,
+    q(s) = min(1, min of FDR(t) over the thresholds t at or worse than s).  Exact arithmetic; compared with the
+    driver's `qspec` on every short case of the run (`qspec-restatement`)."""
+    ks = [(-x if desc else x) for x in scores]            # smaller = better
+    nt, nd = {}, {}
+    for k, l in zip(ks, labels):
+        if l:
+            nt[k] = nt.get(k, 0) + 1
+        else:
+            nd[k] = nd.get(k, 0) + 1
+    order = sorted(set(ks))                               # best threshold first
+    T = D = 0
+    fdr = []
+    for k in order:
+        T += nt.get(k, 0)
+        D += nd.get(k, 0)
+        fdr.append(Fraction(D + 1, T) if T else Fraction(1))
+    q, lo = {}, Fraction(1)
+    for k, f in zip(reversed(order), reversed(fdr)):      # thresholds at or worse than k
+        lo = min(lo, f)
+        q[k] = lo
+    return [q[k] for k in ks]
+
+
+def expected_labels(labels, sp, thr: Fraction):
+    """(labels by the exact rule q <= thr, labels from the q-values as stored in single precision, boundary?)"""
+    exact = [(-1 if not l else (1 if x <= thr else 0)) for l, x in zip(labels, sp)]
+    stored = [(-1 if not l else (1 if rounded_c(x) <= float(thr) else 0)) for l, x in zip(labels, sp)]
+    return exact, stored, exact != stored
+
+
+def outside_labels(chk, c, s, me, mle):
+    """integer scores the float32 cast merges: `_update_labels` on arrays against the model of the entry only"""
+    lt = with_layout(label_array(c["labels"], c.get("llkind", "bool"), c.get("lldtype")), c.get("layout", "C"))
+    try:
+        lab = [float(x) for x in impl_labels(s, lt, float(c["thr"]), c["desc"], c["lentry"], c)]
+    except Exception as e:
+        chk.corr_break("labelsentry", dict(case=jsonable(c), impl="exception " + repr(e)[:200], model=mle))
+        return
+    chk.count("lentry", c["lentry"] + "(outside)")
+    if not isinstance(me, list) or not isinstance(mle, list):
+        chk.corr_break("labelsentry", dict(case=jsonable(c), impl=lab, model=mle))
+        return
+    stored = [(-1 if not l else (1 if rounded(x) <= float(c["thr"]) else 0)) for l, x in zip(c["labels"], me)]
+    if lab != [float(x) for x in stored] or (stored == mle) != (lab == [float(x) for x in mle]):
+        chk.corr_break("labelsentry", dict(case=jsonable(c), impl=lab, model=mle, from_model_q=stored))
+
+
 def eval_cases(chk, cases, entries_q, with_labels=True):
     """run impl and model on `cases`; classify disagreements"""
     lines = []
@@ -270,22 +438,81 @@ def eval_cases(chk, cases, entries_q, with_labels=True):
         lines.append(req("qspec", c["desc"], ps))
         lines.append(req("labels", c["desc"], c["thr"], ps))
         lines.append(req("tdcarr", c["desc"], ps))
+        isint = c["sdtype"] in INT_RANGE
+        wl = wire_labels(c["labels"], c["lkind"])
+        ws = [int(x) for x in c["scores"]] if isint else [Fraction(x) for x in c["scores"]]
+        # tdc as called, with the score dtype and the label encoding explicit (cast, sort key, validation)
+        lines.append(req("tdcentry", c["desc"], Atom("int" if isint else "float"), ws, Atom(WIRE_KIND[c["lkind"]]), wl))
+        lines.append(req("f32ofint", sorted(set(ws)) if isint else []))
+        lines.append(req("labelsentry", c["desc"], c["thr"], Atom("int" if isint else "float"), ws,
+                         Atom(WIRE_KIND[c.get("llkind", "bool")]), wire_labels(c["labels"], c.get("llkind", "bool"))))
     resp = common.driver_batch(lines)
+    prev_q = prev_lab = None
     for k, c in enumerate(cases):
-        m = deep(a_rat, dec(resp[4 * k]))
-        sp = deep(a_rat, dec(resp[4 * k + 1]))
-        ml = deep(a_int, dec(resp[4 * k + 2]))
-        ma = dec(resp[4 * k + 3])
+        m = deep(a_rat, dec(resp[NOPS * k]))
+        sp = deep(a_rat, dec(resp[NOPS * k + 1]))
+        ml = deep(a_int, dec(resp[NOPS * k + 2]))
+        ma = dec(resp[NOPS * k + 3])
         ma = deep(a_rat, ma) if isinstance(ma, list) else ma
+        me = dec(resp[NOPS * k + 4])
+        me = deep(a_rat, me) if isinstance(me, list) else me
+        mcast = deep(a_int, dec(resp[NOPS * k + 5]))
+        mle = dec(resp[NOPS * k + 6])
+        mle = deep(a_int, mle) if isinstance(mle, list) else mle
         s, t = to_arrays(c)
         s0, t0 = s.copy(), t.copy()
         entry = c["entry"]
+        # integer scores: does the float32 cast of tdc (as modelled by f32OfInt) keep the order of the scores present?
+        # If not (distinct scores beyond 2^24 merged) the input is outside "small-integer dtype": the code is then
+        # compared with the model of the entry only, nothing is claimed about the formula
+        embeds = True
+        if c["sdtype"] in INT_RANGE:
+            present = sorted(set(int(x) for x in c["scores"]))
+            embeds = all(a < b for a, b in zip(mcast, mcast[1:]))
+            npcast = [int(v) for v in np.array(present, dtype=c["sdtype"]).astype(np.float32).tolist()]
+            if npcast != mcast:
+                chk.corr_break("f32ofint", dict(case=jsonable(c), impl=[str(v) for v in npcast],
+                                                model=[str(v) for v in mcast]))
+            chk.count("int-cast", "order-kept" if embeds else "merges-distinct-scores(outside)")
         try:
-            q = np.asarray(impl_tdc(s, t, c["desc"], entry), dtype=float)
+            qobj = impl_tdc(s, t, c["desc"], entry)
+            q = np.asarray(qobj, dtype=float)
         except Exception as e:  # the property promises a value for every n >= 1
             chk.spec_violation(
                 "exception:" + type(e).__name__, dict(case=jsonable(c), error=repr(e), clause="tdc raised")
             )
+            continue
+        # object re-use: the array handed out by the previous call must not be touched by this one
+        if prev_q is not None and not np.array_equal(prev_q[0], prev_q[1]):
+            chk.spec_violation(f"result-overwritten-by-later-call:{prev_q[2]}",
+                               dict(case=jsonable(c), earlier=[float(x) for x in prev_q[1]],
+                                    now=[float(x) for x in np.asarray(prev_q[0], dtype=float)],
+                                    clause="the q-values returned by an earlier call changed when tdc was called again"))
+        prev_q = (qobj, np.array(qobj, copy=True), entry)
+        if not embeds:
+            chk.case(None, ("outside", pattern_key(c)))
+            chk.count("sdtype", c["sdtype"])
+            chk.count("score-values", c.get("vstyle", c["pat"]))
+            got = [float(x) for x in q]
+            if not (isinstance(me, list) and got == [rounded(b) for b in me]):
+                chk.corr_break("tdcentry", dict(case=jsonable(c), impl=got,
+                                                model=[str(x) for x in me] if isinstance(me, list) else me))
+            if c.get("lentry") in ("_update_labels", "_update_labels-default-direction") and with_labels:
+                outside_labels(chk, c, s, me, mle)
+            elif c.get("lentry") == "_update_labels-series-native" and with_labels and \
+                    all(abs(x) < 2 ** 53 for x in c["scores"]):
+                # a column reaches tdc as float64 (`scores.values.astype(float)`), exact below 2^53: the model of the
+                # Series branch takes the scores as they are, so the formula on the integers is what it returns
+                lt = label_array(c["labels"], c.get("llkind", "bool"), c.get("lldtype"))
+                exact, stored, boundary = expected_labels(c["labels"], sp, c["thr"])
+                try:
+                    lab = [float(x) for x in impl_labels(s, lt, float(c["thr"]), c["desc"], c["lentry"], c)]
+                except Exception as e:
+                    lab = "exception " + repr(e)[:200]
+                chk.count("lentry", c["lentry"] + "(wide-integer-column)")
+                if lab != [float(x) for x in (stored if boundary else exact)]:
+                    chk.corr_break("labels-wide-integer-column",
+                                   dict(case=jsonable(c), impl=lab, model=stored if boundary else exact))
             continue
         chk.case(None, pattern_key(c) if nontrivial(c) else None,
                  sample=dict(scores=[str(x) for x in c["scores"]], labels=c["labels"], desc=c["desc"],
@@ -306,6 +533,10 @@ def eval_cases(chk, cases, entries_q, with_labels=True):
         spec_ok = len(got) == len(exp_spec) and all(a == b for a, b in zip(got, exp_spec))
         model_ok = len(got) == len(exp_model) and all(a == b for a, b in zip(got, exp_model))
         arr_ok = isinstance(ma, list) and len(got) == len(ma) and all(a == rounded(b) for a, b in zip(got, ma))
+        ent_ok = isinstance(me, list) and len(got) == len(me) and all(a == rounded(b) for a, b in zip(got, me))
+        if (c["pat"] != "exhaustive" or k % 8 == 0) and py_spec(c["scores"], c["labels"], c["desc"]) != sp:
+            # self-check of the harness: the restatement used for long inputs against the driver's qSpec
+            chk.corr_break("qspec-restatement", dict(case=jsonable(c), model=[str(x) for x in sp]))
         if not (np.array_equal(s, s0) and np.array_equal(t, t0)):
             chk.spec_violation(f"input-modified:{entry}",
                                dict(case=jsonable(c), clause="tdc changed the caller's score or label array"))
@@ -320,6 +551,9 @@ def eval_cases(chk, cases, entries_q, with_labels=True):
         elif not arr_ok:
             chk.corr_break("tdcarr", dict(case=jsonable(c), impl=got,
                                           model=[str(x) for x in ma] if isinstance(ma, list) else ma))
+        elif not ent_ok:
+            chk.corr_break("tdcentry", dict(case=jsonable(c), impl=got,
+                                            model=[str(x) for x in me] if isinstance(me, list) else me))
         if not with_labels:
             continue
         # labels: the label entry points get the labels in the generated encoding, not only as bool
@@ -329,15 +563,32 @@ def eval_cases(chk, cases, entries_q, with_labels=True):
         lt = with_layout(label_array(c["labels"], llk, c.get("lldtype")), c.get("layout", "C"))
         # one signature per entry point for everything that goes wrong with a 0/1 int / float labelling
         lsig = f"labels:{lentry}" if llk == "bool" else f"labels-nonbool-encoding:{lentry.split('-default')[0]}"
+        lt0 = lt.copy()
         try:
-            lab = impl_labels(s, lt, thr, c["desc"], lentry)
+            labobj = impl_labels(s, lt, thr, c["desc"], lentry, c)
         except Exception as e:
             chk.spec_violation(lsig if llk != "bool" else f"exception-labels:{type(e).__name__}",
                                dict(case=jsonable(c), error=repr(e), clause="_update_labels raised"))
             continue
         chk.count("lentry", lentry)
         chk.count("labels-encoding-at-label-entry", f"{llk}:{c.get('lldtype', 'bool')}")
-        lab = [int(x) for x in lab]
+        if "series-native" in lentry:
+            chk.count("series-index", c.get("sindex", "default"))
+            chk.count("series-ext-dtype", bool(c.get("sext")))
+        if not (np.array_equal(s, s0) and np.array_equal(lt, lt0)):
+            chk.spec_violation(f"input-modified:{lentry}",
+                               dict(case=jsonable(c), clause="_update_labels changed the caller's score or label array"))
+        if prev_lab is not None and not np.array_equal(prev_lab[0], prev_lab[1]):
+            chk.spec_violation(f"result-overwritten-by-later-call:{prev_lab[2]}",
+                               dict(case=jsonable(c), earlier=[float(x) for x in prev_lab[1]],
+                                    clause="the labels returned by an earlier call changed when _update_labels was called again"))
+        prev_lab = (labobj, np.array(labobj, copy=True), lentry)
+        if len(labobj) != len(c["labels"]) or any(float(x) not in (-1.0, 0.0, 1.0) for x in labobj):
+            chk.spec_violation(f"labels-values:{lentry}",
+                               dict(case=jsonable(c), impl=[float(x) for x in labobj],
+                                    clause="a training label other than +1, 0, -1 (or not one per PSM)"))
+            continue
+        lab = [int(x) for x in labobj]
         boundary = any((rounded(x) > thr) != (x > c["thr"]) for x in sp)
         if boundary:
             # q-value and threshold differ by less than the rounding of the stored (single precision) q-value:
@@ -359,6 +610,8 @@ def eval_cases(chk, cases, entries_q, with_labels=True):
             )
         elif lab != ml:
             chk.corr_break("labels", dict(case=jsonable(c), impl=lab, model=ml))
+        elif lab != mle:
+            chk.corr_break("labelsentry", dict(case=jsonable(c), impl=lab, model=mle))
 
 
 def jsonable(c):
@@ -386,6 +639,20 @@ def decorate(rng, c):
                               "_update_labels-array-scores-series-targets"])
     if c["lentry"] == "_update_labels" and c["desc"] and rng.random() < 0.3:
         c["lentry"] = "_update_labels-default-direction"
+    r = rng.random()
+    if r < 0.15:
+        c["lentry"] = "_update_labels-series-native"
+        c["sindex"] = rng.choice(["default", "reversed", "dup", "str", "offset", "shuffled"])
+        if c["sindex"] == "shuffled":
+            c["sperm"] = rng.sample(range(len(c["scores"])), len(c["scores"]))
+        c["tindex_same"] = rng.random() < 0.6
+        c["sext"] = rng.random() < 0.35
+    elif r < 0.22:
+        # the threshold left to its documented default
+        c["lentry"] = rng.choice(["_update_labels-default-fdr", "LinearPsmDataset-default-fdr"])
+        c["thr"] = Fraction(0.01)
+    elif r < 0.30:
+        c["thr"] = Fraction(rng.choice([0.0, 2.0, 1e-9, 0.999999]))     # nothing / everything accepted, just inside
     # encoding of the labels handed to the label entry point (half of the cases: the case's own encoding)
     if rng.random() < 0.5:
         c["llkind"], c["lldtype"] = c["lkind"], c.get("ldtype")
@@ -622,6 +889,310 @@ def fdr2q_direct(chk, rng, n):
     eval_fcases(chk, [gen_fcase(rng) for _ in range(n)])
 
 
+# ----------------------------------------------------------------------------------------------
+# one LinearPsmDataset object used for many calls (as Model.fit / _find_best_feature do: every feature column,
+# both directions, then the model scores, all on the same dataset), feature columns in their own dtypes
+# ----------------------------------------------------------------------------------------------
+SESSION_FEAT_DTYPES = ["float64", "float64", "float32", "int64", "int8", "uint8", "int32", "Int64", "Float64"]
+
+
+def gen_session(rng):
+    n = rng.choice([2, 3, 5, 8, 13, 30, 30, 64])
+    labels = [rng.random() < rng.choice([0.3, 0.5, 0.8, 0.97]) for _ in range(n)]
+    lk = rng.choice(LABEL_KINDS)
+    feats = []
+    for j in range(rng.randint(2, 4)):
+        dt = rng.choice(SESSION_FEAT_DTYPES)
+        pool = rng.randint(1, n)
+        wide = False
+        if dt in ("float64", "Float64"):
+            vals = [Fraction(rng.randint(-40, 40), rng.choice([1, 2, 4])) + Fraction(rng.randint(0, 2), 2 ** 30)
+                    for _ in range(pool)]
+        elif dt == "float32":
+            vals = [Fraction(rng.randint(-400, 400), rng.choice([1, 2, 4, 8])) for _ in range(pool)]
+        elif dt == "uint8":
+            vals = [Fraction(v) for v in rng.sample(range(0, 256), min(pool, 256))]
+        elif dt == "int8":
+            vals = [Fraction(v) for v in rng.sample(range(-128, 128), min(pool, 256))]
+        elif dt in ("int64", "Int64") and rng.random() < 0.4:
+            # an integer column whose values single precision would merge; a column reaches tdc as float64
+            # (`scores.values.astype(float)`), which keeps them apart: outside "small-integer dtype", compared as
+            # correspondence with the model (scores exact) only
+            b = rng.choice([2 ** 24, 2 ** 30, 2 ** 40])
+            vals = [Fraction(b + rng.randint(0, 6)) for _ in range(max(2, pool))]
+            wide = True
+        else:
+            vals = [Fraction(rng.randint(-100, 100) * rng.choice([1, 1, 60000])) for _ in range(pool)]
+        feats.append(dict(dtype=dt, values=[rng.choice(vals) for _ in range(n)], wide=wide))
+    calls = []
+    for _ in range(rng.randint(4, 8)):
+        j = rng.randrange(len(feats))
+        calls.append(dict(src=rng.choice(["column-loc", "column-getitem", "array", "array"]), feat=j,
+                          desc=rng.random() < 0.5,
+                          thr=rng.choice([None, Fraction(0.01), Fraction(0.25), Fraction(0.5), Fraction(0.5), Fraction(0.75),
+                                          Fraction(1.0)])))
+    # what Model._find_best_feature does: the same column, both directions, one after the other
+    j = rng.randrange(len(feats))
+    t = Fraction(rng.choice([0.25, 0.5, 0.3]))
+    calls += [dict(src="column-loc", feat=j, desc=True, thr=t), dict(src="column-loc", feat=j, desc=False, thr=t),
+              dict(src="column-loc", feat=j, desc=True, thr=t)]
+    rng.shuffle(calls)
+    return dict(n=n, labels=labels, lkind=lk, ldtype=rng.choice(LABEL_DTYPES[lk]), feats=feats, calls=calls,
+                index=rng.choice(["default", "reversed", "str", "offset"]), copy_data=rng.random() < 0.5)
+
+
+def sjson(ss):
+    d = dict(ss)
+    d["feats"] = [dict(f, values=[str(x) for x in f["values"]]) for f in ss["feats"]]
+    d["calls"] = [dict(c, thr=None if c["thr"] is None else str(c["thr"])) for c in ss["calls"]]
+    return d
+
+
+def sfrom_json(d):
+    ss = dict(d)
+    ss["feats"] = [dict(f, values=[Fraction(x) for x in f["values"]]) for f in d["feats"]]
+    ss["calls"] = [dict(c, thr=None if c["thr"] is None else Fraction(c["thr"])) for c in d["calls"]]
+    return ss
+
+
+def eval_sessions(chk, sessions):
+    import mokapot.dataset as D
+
+    lines, where = [], {}
+    for si, ss in enumerate(sessions):
+        for c in ss["calls"]:
+            if (si, c["feat"], c["desc"]) not in where:
+                ps = [[x, bool(l)] for x, l in zip(ss["feats"][c["feat"]]["values"], ss["labels"])]
+                where[(si, c["feat"], c["desc"])] = len(lines)
+                lines.append(req("qspec", c["desc"], ps))
+    resp = common.driver_batch(lines)
+    for si, ss in enumerate(sessions):
+        n = ss["n"]
+        cols = {"t": label_array(ss["labels"], ss["lkind"], ss["ldtype"]), "spec": np.arange(n),
+                "pep": [f"P{i}" for i in range(n)]}
+        for j, f in enumerate(ss["feats"]):
+            base = {"Int64": "int64", "Float64": "float64"}.get(f["dtype"], f["dtype"])
+            col = pd.Series(np.array([int(x) for x in f["values"]], dtype=base) if base.startswith(("int", "uint"))
+                            else np.array([float(x) for x in f["values"]], dtype=base))
+            cols[f"f{j}"] = col.astype(f["dtype"]) if f["dtype"] != base else col
+        df = pd.DataFrame(cols)
+        df.index = series_index(ss["index"], n)
+        ds = D.LinearPsmDataset(df, target_column="t", spectrum_columns="spec", peptide_column="pep",
+                                feature_columns=[f"f{j}" for j in range(len(ss["feats"]))],
+                                copy_data=ss["copy_data"], enforce_checks=False)
+        handed_out = []
+        for ci, c in enumerate(ss["calls"]):
+            sp = deep(a_rat, dec(resp[where[(si, c["feat"], c["desc"])]]))
+            name = f"f{c['feat']}"
+            f = ss["feats"][c["feat"]]
+            if c["src"] == "column-loc":
+                arg = ds.data.loc[:, name]
+            elif c["src"] == "column-getitem":
+                arg = ds.data[name]
+            else:
+                arg = np.array([float(x) for x in f["values"]], dtype=float)
+            thr = Fraction(0.01) if c["thr"] is None else c["thr"]
+            sig = f"labels-dataset-reused:{c['src']}"
+            js = dict(session=sjson(ss), call=ci)
+            try:
+                if c["thr"] is None:
+                    out = ds._update_labels(arg, desc=c["desc"])
+                else:
+                    out = ds._update_labels(arg, float(thr), c["desc"])
+            except Exception as e:
+                chk.spec_violation(sig, dict(js, error=repr(e)[:300], clause="LinearPsmDataset._update_labels raised"))
+                continue
+            chk.case(None, ("session", ss["n"], tuple(ss["labels"]), tuple(f["values"]), c["desc"], str(thr)))
+            chk.count("session-call", f"{c['src']}:{f['dtype']}" + (":wide-values" if f.get("wide") else ""))
+            chk.count("session-threshold", "default" if c["thr"] is None else "given")
+            chk.count("session-call-number", min(ci, 9))
+            handed_out.append((out, np.array(out, copy=True), ci))
+            exact, stored, boundary = expected_labels(ss["labels"], sp, thr)
+            got = [float(x) for x in out]
+            if boundary:
+                chk.float_boundary += 1
+            if got != [float(x) for x in (stored if boundary else exact)] and f.get("wide"):
+                chk.corr_break("labels-wide-integer-column", dict(js, impl=got, model=stored if boundary else exact))
+            elif got != [float(x) for x in (stored if boundary else exact)]:
+                chk.spec_violation(sig, dict(js, impl=got, expected=stored if boundary else exact,
+                                             clause="training labels of a call on a dataset used before differ from "
+                                                    "the spec of that call's own scores, direction and threshold"))
+        for obj, snap, ci in handed_out:
+            if not np.array_equal(obj, snap):
+                chk.spec_violation("result-overwritten-by-later-call:LinearPsmDataset",
+                                   dict(session=sjson(ss), call=ci,
+                                        clause="labels returned by an earlier call changed during later calls"))
+        if [bool(x) for x in ds.targets] != ss["labels"]:
+            chk.spec_violation("dataset-targets-changed", dict(session=sjson(ss),
+                                                               clause="the dataset's target column changed"))
+
+
+def pinned_sessions():
+    """run first on every seed: one dataset, the same column in both directions and again (what the search for the
+    best feature does); the default threshold on 30 targets above two decoys; a wide integer column"""
+    out = []
+    half, dflt = Fraction(1, 2), None
+    f0 = [Fraction(v) for v in (9, 8, 7, 6, 5, 4)]
+    f1 = [Fraction(v) for v in (1, 2, 3, 3, 5, 6)]
+    lab = [True, True, False, True, False, True]
+    calls = [dict(src="column-loc", feat=0, desc=True, thr=half), dict(src="column-loc", feat=0, desc=False, thr=half),
+             dict(src="column-loc", feat=0, desc=True, thr=Fraction(1)), dict(src="column-loc", feat=1, desc=True, thr=half),
+             dict(src="array", feat=1, desc=False, thr=half), dict(src="column-getitem", feat=0, desc=True, thr=half)]
+    out.append(dict(n=6, labels=lab, lkind="bool", ldtype="bool", index="default", copy_data=True, calls=calls,
+                    feats=[dict(dtype="float64", values=f0, wide=False), dict(dtype="int64", values=f1, wide=False)]))
+    sc = [Fraction(200 - i) for i in range(32)]
+    out.append(dict(n=32, labels=[True] * 30 + [False] * 2, lkind="int01", ldtype="int64", index="str", copy_data=False,
+                    feats=[dict(dtype="float64", values=sc, wide=False), dict(dtype="int32", values=sc, wide=False)],
+                    calls=[dict(src=src, feat=j, desc=True, thr=dflt) for src in ("column-loc", "array") for j in (0, 1)]))
+    for b in (2 ** 24, 2 ** 30):
+        v = [Fraction(x) for x in (b + 1, b + 3, b, b - 1000)]
+        out.append(dict(n=4, labels=[True, True, False, True], lkind="bool", ldtype="bool", index="offset",
+                        copy_data=True, feats=[dict(dtype="int64", values=v, wide=True), dict(dtype="Int64", values=v, wide=True)],
+                        calls=[dict(src=src, feat=j, desc=True, thr=half) for src in ("column-loc", "column-getitem", "array")
+                               for j in (0, 1)]))
+    return out
+
+
+def dataset_sessions(chk, rng, n):
+    eval_sessions(chk, pinned_sessions() + [gen_session(rng) for _ in range(n)])
+
+
+# ----------------------------------------------------------------------------------------------
+# long inputs (counts beyond 255 / 32767 / 65535, numpy's sort switching algorithms, any size-dependent path),
+# and the same-length calls made from several threads at once (brew trains its folds in threads)
+# ----------------------------------------------------------------------------------------------
+LARGE_QUICK = [100, 150, 257, 300, 1000, 4097, 68000, 70000]
+LARGE_THOROUGH = LARGE_QUICK + [64, 128, 129, 255, 256, 512, 2000, 5000, 10000, 20000, 66000, 140000, 300000]
+
+
+def gen_large(rng, n):
+    sdt = rng.choice(["float64", "float64", "float32", "int32", "uint16", "int8", "int64"])
+    k = rng.choice([2, 7, 40, max(2, n // 3), 2 * n])
+    den = 1
+    if sdt in INT_RANGE:
+        lo, hi = INT_RANGE[sdt]
+        lo, hi = max(lo, -2 ** 22), min(hi, 2 ** 22)
+        pool = [rng.randint(lo, hi) for _ in range(k)]
+    else:
+        # float scores are `scores[i] / den` (exact in float32 and float64); kept as integers, which order the same
+        den = rng.choice([1, 2, 4])
+        pool = [rng.randint(-2 ** 21, 2 ** 21) for _ in range(k)]
+    scores = [rng.choice(pool) for _ in range(n)]
+    p = rng.choice([0.5, 0.5, 0.9, 0.97, 0.1])
+    if n >= 68000:                  # more than 65535 targets (n = 70000 ...) or decoys (n = 68000 ...)
+        p = 0.97 if n % 10000 == 0 else 0.03
+    labels = [rng.random() < p for _ in range(n)]
+    if rng.random() < 0.3:          # a long run of decoys on top
+        order = sorted(range(n), key=lambda i: scores[i], reverse=True)
+        for i in order[: n // 50 + 1]:
+            labels[i] = False
+    return dict(scores=scores, labels=labels, desc=rng.random() < 0.5, sdtype=sdt,
+                lkind=rng.choice(LABEL_KINDS), thr=Fraction(rng.choice([0.01, 0.05, 0.25, 0.5])),
+                entry=rng.choice(["tdc", "tdc", "qvalues_from_scores"]),
+                lentry=rng.choice(["_update_labels", "_update_labels-series", "_update_labels-series-native"]),
+                pat="long", den=den)
+
+
+def lscore_array(c):
+    if c["sdtype"] in INT_RANGE:
+        return np.array(c["scores"], dtype=c["sdtype"])
+    s = np.array(c["scores"], dtype=np.float64) / c["den"]
+    a = s.astype(c["sdtype"])
+    assert np.array_equal(a.astype(np.float64), s)
+    return a
+
+
+def ljson(c):
+    return dict(c, thr=str(c["thr"]))
+
+
+def lfrom_json(d):
+    return dict(d, scores=[int(x) for x in d["scores"]], thr=Fraction(d["thr"]))
+
+
+def eval_large(chk, cases):
+    lines = []
+    for c in cases:
+        n = len(c["scores"])
+        ps = [[Fraction(x, c["den"]), bool(l)] for x, l in zip(c["scores"], c["labels"])] if n <= 5000 else []
+        if c["entry"] == "qvalues_from_scores":
+            c["desc"] = True
+        lines.append(req("tdc", c["desc"], ps) if n <= 5000 else req("f32ofint", []))
+        lines.append(req("tdcarr", c["desc"], ps) if n <= 1100 else req("f32ofint", []))
+        lines.append(req("qspec", c["desc"], ps) if n <= 150 else req("f32ofint", []))
+    resp = common.driver_batch(lines)
+    for k, c in enumerate(cases):
+        n = len(c["scores"])
+        sp = py_spec(c["scores"], c["labels"], c["desc"])
+        s = lscore_array(c)
+        t = label_array(c["labels"], c["lkind"])
+        small = dict(n=n, sdtype=c["sdtype"], desc=c["desc"], entry=c["entry"], lentry=c["lentry"])
+        try:
+            q = [float(x) for x in impl_tdc(s, t, c["desc"], c["entry"])]
+        except Exception as e:
+            chk.spec_violation("exception:" + type(e).__name__, dict(lcase=ljson(c), error=repr(e)[:300], clause="tdc raised"))
+            continue
+        chk.case(None, ("long", n, c["sdtype"], c["desc"], hash(tuple(c["scores"][:50])), tuple(c["labels"][:50])))
+        chk.count("long-n", n)
+        chk.count("long-sdtype", c["sdtype"])
+        for nm, cnt in (("targets", sum(c["labels"])), ("decoys", n - sum(c["labels"]))):
+            chk.count(f"long-{nm}", "over-65535" if cnt > 65535 else ("over-255" if cnt > 255 else "small"))
+        exp = [rounded_c(x) for x in sp]
+        if q != exp:
+            bad = [i for i in range(min(len(q), n)) if q[i] != exp[i]][:5]
+            chk.spec_violation(f"qvalue-formula:{c['entry']}",
+                               dict(lcase=ljson(c), summary=small, first_differences=[(i, q[i], str(sp[i])) for i in bad],
+                                    clause="q-value differs from the defining formula (long input)"))
+            continue
+        for j, op in ((0, "tdc"), (1, "tdcarr"), (2, "qspec")):
+            m = dec(resp[3 * k + j])
+            if (op == "tdc" and n <= 5000) or (op == "tdcarr" and n <= 1100) or (op == "qspec" and n <= 150):
+                if not isinstance(m, list) or [a_rat(x) for x in m] != sp:
+                    chk.corr_break(op if op != "qspec" else "qspec-restatement", dict(lcase=ljson(c), summary=small))
+        exact, stored, boundary = expected_labels(c["labels"], sp, c["thr"])
+        c2 = dict(c, sindex="offset", tindex_same=False, sext=False)
+        try:
+            lab = [float(x) for x in impl_labels(s, t, float(c["thr"]), c["desc"], c["lentry"], c2)]
+        except Exception as e:
+            chk.spec_violation(f"exception-labels:{type(e).__name__}", dict(lcase=ljson(c), error=repr(e)[:300],
+                                                                            clause="_update_labels raised"))
+            continue
+        chk.count("long-lentry", c["lentry"])
+        if boundary:
+            chk.float_boundary += 1
+        if lab != [float(x) for x in (stored if boundary else exact)]:
+            chk.spec_violation(f"labels:{c['lentry']}", dict(lcase=ljson(c), summary=small,
+                                                             clause="training labels differ from spec (long input)"))
+
+
+def threaded_calls(chk, rng, n, rounds):
+    """tdc called from four threads at once on inputs of one length (brew fits its folds in threads and every fit
+    calls _update_labels): each result must be the one the call gives on its own"""
+    from concurrent.futures import ThreadPoolExecutor
+    import mokapot.qvalues as Q
+
+    cases = []
+    for _ in range(4):
+        cases.append(gen_large(rng, n))
+    arrs = [(lscore_array(c), label_array(c["labels"], "bool"), c["desc"]) for c in cases]
+    exp = [[rounded_c(x) for x in py_spec(c["scores"], c["labels"], c["desc"])] for c in cases]
+    with ThreadPoolExecutor(4) as ex:
+        for r in range(rounds):
+            outs = list(ex.map(lambda a: [float(x) for x in Q.tdc(a[0], a[1], desc=a[2])], arrs))
+            for i, (o, e) in enumerate(zip(outs, exp)):
+                chk.case(None, ("threads", n, r, i))
+                chk.count("threaded-calls", n)
+                if o != e:
+                    chk.spec_violation("qvalue-formula:tdc-concurrent",
+                                       dict(lcase=ljson(cases[i]), summary=dict(n=n, threads=4, round=r),
+                                            clause="q-values of a call made while other threads call tdc differ from the formula"))
+                    return
+
+
+def large_inputs(chk, rng, sizes):
+    eval_large(chk, [gen_large(rng, n) for n in sizes])
+
+
 def exhaustive(chk, nmax, nvals):
     cases = []
     for n in range(1, nmax + 1):
@@ -680,6 +1251,37 @@ def pinned_cases():
         out.append(dict(base, scores=[Fraction(x) for x in (3, 3, 2, 2, 2, 1)],
                         labels=[True, True, True, False, True, False], desc=True, lkind=lk, ldtype=ldt, llkind=lk,
                         lldtype=ldt, lentry="_update_labels", thr=Fraction(1, 2)))
+    # the documented default threshold 0.01: 30 (64, 120) targets above two decoys have q = 1/30 (1/64, 1/120)
+    for T in (30, 64, 120):
+        for lentry in ("_update_labels-default-fdr", "LinearPsmDataset-default-fdr"):
+            for desc in (True, False):
+                sc = [Fraction(200 - i) for i in range(T + 2)]
+                out.append(dict(base, scores=sc if desc else [-x for x in sc], labels=[True] * T + [False] * 2, desc=desc,
+                                lkind="bool", ldtype="bool", llkind="bool", lldtype="bool", lentry=lentry,
+                                thr=Fraction(0.01), pat="pinned-default-threshold"))
+    # integer dtypes at the ends of their ranges (negating them in the integer dtype wraps), zeros of both signs
+    for sdt, vals in (("int8", [-128, 7, 5]), ("uint8", [0, 5, 3]), ("int16", [-32768, 7, 5]), ("uint64", [0, 2 ** 64 - 1, 3]),
+                      ("int64", [-2 ** 63, 2 ** 63 - 1, 5]), ("int32", [-2 ** 31, 5, 7])):
+        for desc in (True, False):
+            out.append(dict(base, sdtype=sdt, scores=[Fraction(v) for v in vals], labels=[False, True, True], desc=desc,
+                            lkind="bool", ldtype="bool", llkind="bool", lldtype="bool", lentry="_update_labels",
+                            thr=Fraction(1, 2), vstyle="dtype-extremes", pat="pinned-dtype-extremes"))
+    for sdt in ("float64", "float32"):
+        for desc in (True, False):
+            out.append(dict(base, sdtype=sdt, scores=[Fraction(v) for v in (1, 0, 0, 0, -1)],
+                            labels=[True, True, False, True, True], negzero=[1, 3], desc=desc, lkind="bool", ldtype="bool",
+                            llkind="bool", lldtype="bool", lentry="_update_labels", thr=Fraction(1, 2),
+                            vstyle="signed-zeros", pat="pinned-signed-zeros"))
+    # an integer column that single precision would merge, handed over as a pandas Series (float64 keeps it apart)
+    for b in (2 ** 24, 2 ** 30):
+        for k in (2, 3):
+            for desc in (True, False):
+                sc = [b + 1 + 2 * i for i in range(k)] + [b, b - 1000]
+                out.append(dict(base, sdtype="int64", scores=[Fraction(v if desc else -v) for v in sc],
+                                labels=[True] * k + [False, True], desc=desc, lkind="bool", ldtype="bool", llkind="bool",
+                                lldtype="bool", lentry="_update_labels-series-native", sindex="offset",
+                                tindex_same=True, sext=(k == 3), thr=Fraction(1, 2), vstyle="int-beyond-2^24",
+                                pat="pinned-wide-integer-column"))
     return out
 
 
@@ -696,6 +1298,10 @@ def search(chk):
     cases = [decorate(rng, gen_case(rng, 12)) for _ in range(3000)]
     eval_cases(chk, cases, None)
     if not chk.spec_violations:
+        dataset_sessions(chk, rng, 150)
+    if not chk.spec_violations:
+        large_inputs(chk, rng, [64, 129, 257, 513, 1025, 2049, 4097, 8193, 20000])
+    if not chk.spec_violations:
         exhaustive(chk, 5, 3)
 
 
@@ -704,6 +1310,45 @@ def minimise(chk):
     if not chk.spec_violations:
         return
     sig, info = chk.spec_violations[0]
+    if "lcase" in info and sig.startswith("qvalue-formula") and not info.get("summary", {}).get("threads"):
+        # long input: drop rows while the real code still differs from the restated formula (no driver, 20 s at most)
+        import time
+        c0 = lfrom_json(info["lcase"])
+        rows = list(zip(c0["scores"], c0["labels"]))
+        t_end = time.time() + 20
+
+        best = [rows]
+
+        class _Timeout(Exception):
+            pass
+
+        def lfails(rs):
+            if time.time() > t_end:
+                raise _Timeout()
+            if not rs:
+                return False
+            c = dict(c0, scores=[r[0] for r in rs], labels=[r[1] for r in rs])
+            try:
+                q = [float(x) for x in impl_tdc(lscore_array(c), label_array(c["labels"], c["lkind"]), c["desc"], c["entry"])]
+            except Exception:
+                return False
+            bad = q != [rounded_c(x) for x in py_spec(c["scores"], c["labels"], c["desc"])]
+            if bad:
+                best[0] = rs
+            return bad
+
+        try:
+            small = common.shrink_list(rows, lfails)
+        except _Timeout:
+            small = best[0]
+        if len(small) < len(rows):
+            sub = common.Check(chk.prop, chk.tier, chk.seed)
+            eval_large(sub, [dict(c0, scores=[r[0] for r in small], labels=[r[1] for r in small])])
+            for s2, i in sub.spec_violations:
+                if s2 == sig:
+                    chk.spec_violations[0] = (s2, dict(i, shrunk_from_rows=len(rows)))
+                    break
+        return
     if "case" not in info or not sig.startswith(("qvalue-formula", "labels")):
         return
     c0 = from_json(info["case"])
@@ -738,18 +1383,30 @@ def main(chk, args):
     for _ in range(n // 6):
         c = decorate(rng, gen_eps_case(rng))
         k = sum(c["labels"][i] for i in range(len(c["labels"])))
+        if c["lentry"].endswith("default-fdr"):
+            c["lentry"] = "_update_labels"
         c["thr"] = Fraction(rng.choice([0.3, 0.5, 0.6, 0.75]))
         cases.append(c)
     for _ in range(n // 10):
         c = gen_boundary_case(rng)
         thr = c["thr"]
         c = decorate(rng, c)
+        if c["lentry"].endswith("default-fdr"):
+            c["lentry"] = "_update_labels"
         c["thr"] = thr
+        if rng.random() < 0.3:
+            # the documented default threshold (0.01) on prefixes whose FDR is 1/100, 1/20, 2/40, 1/10 ...: a default
+            # of 0.05 or 0.1 would accept them, a default below 0.01 would refuse the 1/100 one
+            c["lentry"] = rng.choice(["_update_labels-default-fdr", "LinearPsmDataset-default-fdr"])
+            c["thr"] = Fraction(0.01)
         cases.append(c)
     eval_cases(chk, cases, None)
     malformed(chk, rng, 100 if chk.tier == "quick" else 1000)
     validation(chk, rng, 120 if chk.tier == "quick" else 1500)
     fdr2q_direct(chk, rng, 200 if chk.tier == "quick" else 3000)
+    dataset_sessions(chk, rng, 40 if chk.tier == "quick" else 600)
+    large_inputs(chk, rng, LARGE_QUICK if chk.tier == "quick" else LARGE_THOROUGH * 3)
+    threaded_calls(chk, rng, 20000, 2 if chk.tier == "quick" else 10)
     unsupported_dtypes(chk)
     if chk.tier == "thorough":
         exhaustive(chk, 6, 3)
@@ -758,8 +1415,8 @@ def main(chk, args):
     minimise(chk)
     lc = None
     if chk.tier == "thorough":      # both property modules
-        lc1, lc2 = common.leanchecker("C01"), common.leanchecker("C01Arr")
-        lc = (lc1[0] and lc2[0], lc1[1] + lc2[1])
+        lcs = [common.leanchecker(m) for m in ("C01", "C01Arr", "C01Key")]
+        lc = (all(x[0] for x in lcs), "".join(x[1] for x in lcs))
     chk.assumptions += [
         "IEEE rounding of the single division (cum_decoys+1)/cum_targets is reproduced with the same numpy "
         "primitive (np.divide into a float32 out-array); the model works over exact rationals",
@@ -768,6 +1425,13 @@ def main(chk, args):
         "stay below 2^24 in magnitude (tdc casts integer dtypes to float32, larger values would merge)",
         "_fdr2qvalue is driven directly only on arrays satisfying its contract (one length, cumulative num_total, "
         "group sizes >= 1 covering the arrays)",
+        "integer scores whose float32 cast (model f32OfInt, compared with numpy's cast on every integer case) merges "
+        "two distinct scores are outside 'small-integer dtype': there the code is compared with the model of the "
+        "entry only (correspondence), nothing is claimed about the formula; the same integers in a pandas Series reach "
+        "tdc as float64 and are compared with the formula on the integers as a correspondence",
+        "inputs longer than 5000 rows are compared with the Python restatement of the formula only (the restatement "
+        "is checked against the driver's qSpec on every short case of the run); the threaded calls are a test without "
+        "false alarms, not a proof of re-entrancy (the schedule is the operating system's)",
     ]
     chk.finish(build, RULE, search=search, lc=lc,
                trusted_extra=["numpy argsort/unique/cumsum/divide, numba njit"])
@@ -780,6 +1444,21 @@ def replay(chk, path):
         eval_vcases(chk, [vfrom_json(info["vcase"])])
         for sig, i in chk.spec_violations:
             print("REPRODUCED", sig, json.dumps(i)[:1500])
+        return 1 if chk.spec_violations else 0
+    if "session" in info:
+        common.build_and_audit("C01")
+        eval_sessions(chk, [sfrom_json(info["session"])])
+        for sig, i in chk.spec_violations:
+            print("REPRODUCED", sig, json.dumps(i)[:1500])
+        return 1 if chk.spec_violations else 0
+    if "lcase" in info:
+        common.build_and_audit("C01")
+        c = lfrom_json(info["lcase"])
+        if info.get("summary", {}).get("threads"):
+            print("concurrent case: the input is replayed sequentially (the schedule is not reproducible)")
+        eval_large(chk, [c])
+        for sig, i in chk.spec_violations:
+            print("REPRODUCED", sig, json.dumps({k: v for k, v in i.items() if k != "lcase"})[:1500])
         return 1 if chk.spec_violations else 0
     if "case" not in info:
         print(json.dumps(info, indent=1)[:3000])
